@@ -340,3 +340,25 @@ func plainAtoms(f *core.Facts) []core.Atom {
 	}
 	return out
 }
+
+// isPureCall reports whether a canonical string is exactly one call
+// expression "name(...)" with an optional value id and nothing derived from it.
+func isPureCall(s, name string) bool {
+	if !strings.HasPrefix(s, name+"(") {
+		return false
+	}
+	depth := 0
+	for i := len(name); i < len(s); i++ {
+		switch s[i] {
+		case '(', '[':
+			depth++
+		case ')', ']':
+			depth--
+			if depth == 0 {
+				rest := s[i+1:]
+				return rest == "" || (strings.HasPrefix(rest, "@") || strings.HasPrefix(rest, "'")) && !strings.ContainsAny(rest, ".([")
+			}
+		}
+	}
+	return false
+}
